@@ -187,8 +187,17 @@ Example script_dup_ok :
 Proof. vm_compute. reflexivity. Qed.
 
 (* ---------- the refutation witnesses, as statements about a world reached by a script from the empty world ---------- *)
+Definition unval {A} (d : A) (r : res A) : A := match r with Val a => a | _ => d end.
+Definition dummy_node : node := mkNode PNone 0 (0, 0) [] [] [] None.
+Definition node_at (w : world) (i : id) : node := match w_nodes w i with Some n => n | None => dummy_node end.
+Definition after {A} (r : res (out A * world)) : world := match r with Val (_, w') => w' | _ => empty_world end.
+
 (* (a) without the hypothesis TypeAgrees the type of a successful copy is NOT the type the tables give the element name
        below the destination, and the copy contains a sub-element that is not permitted there *)
+Definition ops_a : list op := setup 2 ++ [OpCreateSub 7 nFRAG; OpCreateSub 9 nXONLY].
+Definition w_a : world := unval empty_world (run_script ops_a empty_world).
+Definition w_a' : world := after (run (OpCopy 8 9) w_a).
+
 Lemma copy_type_refuted :
   exists ops w h other c w' nh nc x idx kid kn,
     run_script ops empty_world = Val w /\
@@ -198,19 +207,55 @@ Lemma copy_type_refuted :
     In (CElem kid) (n_content nc) /\ w_nodes w' kid = Some kn /\
     find_sub_element tiny x (n_name kn) LATEST = Val None.
 Proof.
-  exists (setup 2 ++ [OpCreateSub 7 nFRAG; OpCreateSub 9 nXONLY]).
-  destruct (run_script (setup 2 ++ [OpCreateSub 7 nFRAG; OpCreateSub 9 nXONLY]) empty_world) as [w| |] eqn:E;
-    [|vm_compute in E; discriminate E|vm_compute in E; discriminate E].
-  exists w, 8, 9, 11.
-  destruct (run (OpCopy 8 9) w) as [[[v|e] w']| |] eqn:E2.
-  2-4: (revert E2; vm_compute in E; injection E as <-; vm_compute; discriminate).
-  exists w'.
-  revert E2. vm_compute in E. injection E as <-. vm_compute. intros [= <- <-].
-  do 6 eexists. repeat split; try reflexivity.
-  - discriminate.
-  - left. reflexivity.
-  - vm_compute. reflexivity.
-  - vm_compute. reflexivity.
+  exists ops_a, w_a, 8, 9, 11, w_a', (node_at w_a 8), (node_at w_a' 11), (12, 12), [0], 12, (node_at w_a' 12).
+  split; [vm_compute; reflexivity|].
+  split; [vm_compute; reflexivity|].
+  split; [vm_compute; reflexivity|].
+  split; [vm_compute; reflexivity|].
+  split; [vm_compute; reflexivity|].
+  split; [vm_compute; discriminate|].
+  split; [vm_compute; left; reflexivity|].
+  split; vm_compute; reflexivity.
+Qed.
+
+(* (f) an enum value in element text that the target version does not have is copied: the copy holds a value that
+       check_value rejects in the version of its file *)
+Definition w_f : world := unval empty_world (run_script (removelast script_enum) empty_world).
+Definition w_f' : world := after (run (OpCopy 14 5) w_f).
+
+Lemma copy_enum_text_refuted :
+  exists ops w h other c w' kid kn v spec d,
+    run_script ops empty_world = Val w /\
+    run (OpCopy h other) w = Val (OK (VElem c), w') /\
+    min_version LATEST c w' = Val (OK v, w') /\
+    In (CElem kid) (n_content (node_at w' c)) /\ w_nodes w' kid = Some kn /\
+    chardata_spec tiny (n_type kn) = Val (Some spec) /\ n_content kn = [CData d] /\
+    check_value check_fn d spec v = Val false.
+Proof.
+  exists (removelast script_enum), w_f, 14, 5, 15, w_f', 19, (node_at w_f' 19), 1, (CEnum [(0, 3); (1, 2)]), (DEnum 1).
+  split; [vm_compute; reflexivity|].
+  split; [vm_compute; reflexivity|].
+  split; [vm_compute; reflexivity|].
+  split; [vm_compute; auto 10|].
+  split; [vm_compute; reflexivity|].
+  split; [vm_compute; reflexivity|].
+  split; vm_compute; reflexivity.
+Qed.
+
+(* (d) duplicate() of a model with files of different versions is not a faithful copy: an element of the original
+       (NEW-THING, valid in the newer file's version only) is missing in the duplicate *)
+Definition w_d : world := unval empty_world (run_script script_dup empty_world).
+
+Lemma duplicate_refuted :
+  exists ops w m m' w',
+    run_script ops empty_world = Val w /\
+    dup m w = Val (OK m', w') /\
+    (count_nodes w' m' < count_nodes w' m)%nat.
+Proof.
+  exists script_dup, w_d, 0, 1, (after (dup 0 w_d)).
+  split; [vm_compute; reflexivity|].
+  split; [vm_compute; reflexivity|].
+  vm_compute. repeat constructor.
 Qed.
 
 End Tiny13.
